@@ -405,17 +405,17 @@ func TestC06(t *testing.T) {
 func TestC06RaceShort(t *testing.T) {
 	m := mon.New(t, "C06", "chain-race-quick")
 	defer m.Finish()
-	m.Rule("one hnet history of 36 blocks with the traffic of the chain stage, built with -race: every block is executed by the live node, every sixth block re-executed on three cold twins under GOMAXPROCS 1/2/16 with PRNG delays at the trimming goroutines; race reports whose stacks touch the property's anchor files are violations; distinct = block hashes")
+	m.Rule("one hnet history of 36 blocks with the traffic of the chain stage, built with -race: every block is executed by the live node, every twelfth block re-executed on three cold twins under GOMAXPROCS 1/2/16 with PRNG delays at the trimming goroutines; race reports whose stacks touch the property's anchor files are violations; distinct = block hashes")
 	m.Assume("protocol timeline and TrimDepths compressed", "single live slice")
 	// chains are not reproducible (pending headers carry the wall clock): how many blocks see two or
-	// more trimming goroutines at work varies; extend the exploration until enough of them were seen
+	// more trimming goroutines at work varies; extend the exploration until one was seen
 	concurrent := func() int64 {
 		return m.Seen("trimming-goroutines-with-deletions:2") + m.Seen("trimming-goroutines-with-deletions:3+")
 	}
 	r := m.Rand("race-history")
 	// (not conditioned on m.Violations(): listed findings are recorded as violations too and must not stop the exploration)
-	for h := 0; h < 6 && (h == 0 || concurrent() < 3); h++ {
-		history(m, r, h, m.N(36, 36), 6, nil)
+	for h := 0; h < 6 && (h == 0 || concurrent() < 1); h++ {
+		history(m, r, h, m.N(36, 36), 12, nil)
 		m.AddExtra("race_histories_run", 1)
 	}
 	m.Floor(30, 5)
